@@ -237,6 +237,7 @@ impl PartialOrd for SyncStatus {
 
 /// Node user agent.
 #[derive(Debug, PartialEq, Eq, PartialOrd, Ord, Clone, Serialize, Deserialize)]
+#[serde(try_from = "String", into = "String")]
 pub struct UserAgent(String);
 
 impl UserAgent {
@@ -303,6 +304,20 @@ impl FromStr for UserAgent {
 impl AsRef<str> for UserAgent {
     fn as_ref(&self) -> &str {
         self.0.as_str()
+    }
+}
+
+impl TryFrom<String> for UserAgent {
+    type Error = String;
+
+    fn try_from(value: String) -> Result<Self, Self::Error> {
+        UserAgent::from_str(&value).map_err(|s| format!("invalid user agent string: {s:?}"))
+    }
+}
+
+impl From<UserAgent> for String {
+    fn from(value: UserAgent) -> Self {
+        value.0
     }
 }
 
